@@ -1,4 +1,3 @@
 package main
-func ruleC04R3buf(r *Run) {}
 func ruleC03R4(r *Run) {}
 func ruleC03R5(r *Run) {}
